@@ -379,13 +379,16 @@ def applyWrites (s : St) : List (Path × Nat × Nat) → St
   | [] => s
   | (p, sz, c) :: rest => applyWrites (writeFile s p sz c) rest
 
-/-- `process_task_result` after the action ran -/
+/-- `process_task_result` after the action ran.  An exception of `save_success` is a task failure: `FileNotFoundError`
+    (a dependency vanished) and, since the fix commit 8fa62ea, `TypeError` / `ValueError` -- which includes the
+    `TypeError` of `MD5Checker.get_state` on a state saved by `TimestampChecker` (`SaveOut.crash`): the record is
+    erased, the run goes on.  (`reset-dep` calls `save_success` without that handler: there it still is a crash.) -/
 def finish (s : St) (t : Name) (ok : Bool) (res : Option Res) : St :=
   if ok then
     match saveSuccess s.checker (s.defs t).deps (s.rcd t) s.fs (newValues (s.defs t) s.resOf) res with
     | .ok r => commit s t r ⟨(s.defs t).deps, s.fs, newValues (s.defs t) s.resOf, r.result, s.checker⟩
     | .missing => erase s t
-    | .crash => { s with crashed := true }
+    | .crash => erase s t
   else erase s t
 
 def peek (s : St) (t : Name) : St :=
